@@ -277,16 +277,23 @@ fn serve(mut sock: TcpStream, k: usize, srv: Arc<Srv>) {
 
 // ---------------------------------------------------------------- client side
 
-fn message(id: &str, size: usize) -> Vec<u8> {
-    // does not end with CRLF: the octets before the end-of-data marker's CRLF are then exactly the message
-    let mut m = format!("X-Id: {id}\r\nSubject: pool test\r\n\r\nbody of {id}").into_bytes();
+fn message(id: &str, size: usize, shape: u64) -> Vec<u8> {
+    // shape 0 does not end with CRLF: the octets before the end-of-data marker's CRLF are then exactly the message;
+    // shapes 1 / 2 begin with a line that starts with a dot / is a single dot (transparency state must be fresh for every message),
+    // shape 3 ends with CRLF
+    let head = match shape { 1 => ".leading dot\r\n", 2 => ".\r\n", _ => "" };
+    let mut m = format!("{head}X-Id: {id}\r\nSubject: pool test\r\n\r\nbody of {id}").into_bytes();
     let mut i = 0;
     while m.len() < size {
         m.extend_from_slice(format!("\r\nline {i} of {id} ....................................").as_bytes());
         i += 1;
     }
+    if shape == 3 { m.extend_from_slice(b"\r\n"); }
     m
 }
+
+/// the client always writes CRLF "." CRLF after the content: what the server logs (without that CRLF) is the message itself
+fn fnv_msg(m: &[u8]) -> String { fnv(m) }
 
 fn envelope(id: &str, nrcpt: usize) -> Envelope {
     let from = format!("{id}@s.example").parse().unwrap();
@@ -366,11 +373,11 @@ fn sync_op(tr: &Mutex<Option<SmtpTransport>>, who: &str, idx: usize, op: &Value)
     let res: Value = match (name, t) {
         ("send", Some(t)) => {
             let id = op["id"].as_str().unwrap();
-            let msg = message(id, op["size"].as_u64().unwrap_or(0) as usize);
+            let msg = message(id, op["size"].as_u64().unwrap_or(0) as usize, op["shape"].as_u64().unwrap_or(0));
             let env = envelope(id, op["nrcpt"].as_u64().unwrap_or(1) as usize);
             match t.send_raw(&env, &msg) {
-                Ok(r) => json!({"ok": u16::from(r.code()), "hash": fnv(&msg)}),
-                Err(e) => json!({"err": crate::pure::err_s(&e), "hash": fnv(&msg)}),
+                Ok(r) => json!({"ok": u16::from(r.code()), "hash": fnv_msg(&msg)}),
+                Err(e) => json!({"err": crate::pure::err_s(&e), "hash": fnv_msg(&msg)}),
             }
         }
         ("test", Some(t)) => match t.test_connection() { Ok(b) => json!({"ok": b}), Err(e) => json!({"err": crate::pure::err_s(&e)}) },
@@ -405,11 +412,11 @@ async fn tokio_op(tr: &Mutex<Option<AsyncSmtpTransport<Tokio1Executor>>>, who: &
     let res: Value = match (name, t) {
         ("send", Some(t)) => {
             let id = op["id"].as_str().unwrap();
-            let msg = message(id, op["size"].as_u64().unwrap_or(0) as usize);
+            let msg = message(id, op["size"].as_u64().unwrap_or(0) as usize, op["shape"].as_u64().unwrap_or(0));
             let env = envelope(id, op["nrcpt"].as_u64().unwrap_or(1) as usize);
             match t.send_raw(&env, &msg).await {
-                Ok(r) => json!({"ok": u16::from(r.code()), "hash": fnv(&msg)}),
-                Err(e) => json!({"err": crate::pure::err_s(&e), "hash": fnv(&msg)}),
+                Ok(r) => json!({"ok": u16::from(r.code()), "hash": fnv_msg(&msg)}),
+                Err(e) => json!({"err": crate::pure::err_s(&e), "hash": fnv_msg(&msg)}),
             }
         }
         ("test", Some(t)) => match t.test_connection().await { Ok(b) => json!({"ok": b}), Err(e) => json!({"err": crate::pure::err_s(&e)}) },
